@@ -175,6 +175,7 @@ EXPORT errno_t _mbstowcs_s_chk(size_t *restrict retvalp, wchar_t *restrict dest,
         }
     }
     if (unlikely((char *)dest == src)) {
+        handle_werror(dest, dmax, "mbstowcs_s: overlapping objects", ESOVRLP);
         return RCNEGATE(ESOVRLP);
     }
 
